@@ -629,6 +629,25 @@ fn first_sig_token(sig: &syn::Signature) -> Span {
     sig.fn_token.span()
 }
 
+/// all statements of a block, recursively (with whether they end in `;` / are items or lets)
+struct StmtFinder {
+    at_line_col: Option<(usize, usize)>,
+    spans: Vec<(Span, bool)>,
+}
+impl<'ast> Visit<'ast> for StmtFinder {
+    fn visit_stmt(&mut self, st: &'ast syn::Stmt) {
+        let semi = match st {
+            syn::Stmt::Local(_) => true,
+            syn::Stmt::Item(_) => true,
+            syn::Stmt::Expr(_, s) => s.is_some(),
+            syn::Stmt::Macro(m) => m.semi_token.is_some(),
+        };
+        let _ = self.at_line_col;
+        self.spans.push((st.span(), semi));
+        visit::visit_stmt(self, st);
+    }
+}
+
 /// collect loops of a block in pre-order (source order)
 struct LoopFinder {
     loops: Vec<(Span, Span)>, // (whole loop span, body block span)
@@ -932,7 +951,32 @@ fn apply_contract(cx: &mut Ctx, f: &FnInfo, contract: Option<&Value>, mutself: b
                 }
                 None => bs + body.match_indices(anchor).nth(occ.unwrap_or(0) as usize).unwrap().0,
             };
-            let line = cx.line_of(at);
+            // statement-based placement: `before` = in front of the innermost statement containing the anchor,
+            // `after` = behind that statement (robust against statements that span several lines)
+            let (stmt_s, stmt_e, stmt_semi) = {
+                let mut sf = StmtFinder { at_line_col: None, spans: vec![] };
+                sf.visit_block(block);
+                let mut best: Option<(usize, usize, bool)> = None;
+                for (sp, semi) in sf.spans.iter() {
+                    let (a, b) = cx.range(*sp);
+                    if a <= at && at < b {
+                        if best.map(|x| (b - a) < (x.1 - x.0)).unwrap_or(true) {
+                            best = Some((a, b, *semi));
+                        }
+                    }
+                }
+                if anchor.trim_start().starts_with("//") {
+                    // an anchor on a comment line is placed line-based (comments are not statements)
+                    (at, at, true)
+                } else {
+                    best.unwrap_or((at, at, true))
+                }
+            };
+            let line = cx.line_of(if pos == "after" { stmt_e.max(1) - 1 } else { stmt_s });
+            if pos == "after" && !stmt_semi && stmt_e > stmt_s {
+                cx.errors.push(format!("ANCHOR-LOST {}: anchor {:?} is in a tail expression; `after` would break the syntax", f.key, anchor));
+                continue;
+            }
             cx.anchor_lines.push((f.key.clone(), format!("{}|{}|{}", pos, anchor, occ.unwrap_or(0)), line as i64 - cx.line_of(bs) as i64));
             let off = match pos {
                 "before" => cx.line_starts[line - 1],
